@@ -178,15 +178,6 @@ func init() {
 					}
 					return h, nil
 				}},
-			{Name: "json",
-				Enc: func(v interface{}) ([]byte, error) { return json.Marshal(v.(*types.Header)) },
-				Dec: func(b []byte, loc common.Location) (interface{}, error) {
-					h := new(types.Header)
-					if err := json.Unmarshal(b, h); err != nil {
-						return nil, err
-					}
-					return h, nil
-				}},
 			{Name: "rpcjson", // server side RPCMarshalHeader, client side UnmarshalJSON
 				Enc: func(v interface{}) ([]byte, error) { return json.Marshal(v.(*types.Header).RPCMarshalHeader()) },
 				Dec: func(b []byte, loc common.Location) (interface{}, error) {
@@ -547,15 +538,6 @@ func init() {
 		Project: func(v interface{}) []PV { return projectWoHeader(v.(*types.WorkObjectHeader)) },
 		Codecs: []*Codec{
 			{Name: "proto", LocSensitive: true, Enc: woHeaderProtoEnc, Dec: woHeaderProtoDec},
-			{Name: "json",
-				Enc: func(v interface{}) ([]byte, error) { return v.(*types.WorkObjectHeader).MarshalJSON() },
-				Dec: func(b []byte, loc common.Location) (interface{}, error) {
-					wh := new(types.WorkObjectHeader)
-					if err := wh.UnmarshalJSON(b); err != nil {
-						return nil, err
-					}
-					return wh, nil
-				}},
 			{Name: "rpcjson",
 				Enc: func(v interface{}) ([]byte, error) {
 					return json.Marshal(v.(*types.WorkObjectHeader).RPCMarshalWorkObjectHeader("v2"))
